@@ -792,7 +792,7 @@ fn main() {
      distinct = falsified vector x structural dimensions",
   );
   let mut rng = args.rng(16);
-  let n = (if args.thorough { 50_000u64 } else { 2_400 } * scale / 1000 / args.nshards).max(40);
+  let n = (if args.thorough { 2_400_000u64 } else { 2_400 } * scale / 1000 / args.nshards).max(40);
   for i in 0..n {
     let mut p = CredPlan::good(&mut rng);
     match i % 6 {
